@@ -127,14 +127,19 @@ SPEC = dict(
         "hand-written OCaml driver ocaml/encode/driver.ml (parsing, printing, comparison)",
         "Rust harness harness/src/bin/encode.rs (calls the public encoder entry points, catch_unwind, hex printing)",
         "modelled, not verified: lane-wise semantics of _mm{,256}_{set1,cmpeq}_epi8, _mm256_blendv_epi8, "
-        "_mm{,256}_{andnot,or,and}_si, _mm256_testz_si256, unaligned load/store as list operations on u8 lanes; "
+        "_mm{,256}_{andnot,or,and}_si, _mm256_testz_si256, unaligned load/store as list operations on u8 lanes; NEON "
+        "vld1q_u8_x4/vst1q_u8_x4 as a 64-lane load/store, vbslq_u8 as the SSE2 select, vandq/vmvnq as andnot, "
+        "vgetq_lane_u64 != 0 of the OR-ed registers as 'some lane non-zero'; "
         "sub-slicing `&v[a..a+n]` as firstn/skipn of a list and the write-back of a `&mut` sub-slice as a splice "
         "(addresses are not modelled: loads/stores of the kernels are the unaligned ones, checked textually); "
         "Vec::with_capacity+set_len as a buffer with arbitrary contents; `u8 as char` = code point of the byte; "
         "Rust `match` = first matching arm; String/Display as the UTF-8 bytes of the written chars",
     ],
     assumptions=[
-        "host is x86_64 (Dispatch arms Generic/Sse2/Avx2; the NEON arm and encode_into_neon are not modelled)",
+        "host is x86_64 (Dispatch arms Generic/Sse2/Avx2 are the ones run). encode_into_neon is modelled "
+        "(EncodeInst.neon_params, theorem C05_encode_neon_eq_generic) but compiled on arm/aarch64 only: its model is tied "
+        "to neon.rs by the translator's whole-body text comparison alone, no observation of it is ever made here; the "
+        "`Dispatch::Neon` arm of the dispatcher is not modelled",
         "the destination buffer handed to encode_into by encode_raw may hold any bytes (universally quantified: junk)",
         "from_str on a str that is not pure ASCII is an encoding of its UTF-8 bytes: the reported char is the first "
         "offending *byte* as a code point (e.g. U+00C3 for a text containing U+00E9), which is what the property "
